@@ -36,6 +36,10 @@ Section Dispatch.
   Variable fwd : actor -> M -> list (actor * M).
   (** ConfigValueDO::from_bytes(&value) succeeds *)
   Variable decodable : payload -> bool.
+  (** the target's handler answers Ok for this request (only the leader looks at the answer:
+      `.send(m).await??`; it matters for the last_applied bookkeeping only — the handler's state
+      change has happened either way) *)
+  Variable handler_ok : payload -> bool.
 
   Record req := mkReq { q_variant : variant; q_payload : payload }.
 
@@ -188,7 +192,11 @@ Section Dispatch.
     match entries with
     | [] => am
     | (i, r) :: es =>
-        let ok := match dispatch leader_table r with Send _ _ _ => true | _ => false end in
+        let ok := match dispatch leader_table r with
+                  | Send _ _ MAwaitErr => handler_ok (q_payload r)
+                  | Send _ _ _ => true
+                  | _ => false
+                  end in
         leader_applied es (mkAm i (if ok then am_saved am ++ [i] else am_saved am))
     end.
 
